@@ -33,12 +33,10 @@ theorem tlLen_le9 (x : Nat) : tlLen x ≤ 9 := by
   unfold tlLen; repeat' split
   all_goals omega
 
-/-- for lengths far below 2^63 the Go `int` arithmetic of `tlvSize` is exact -/
-theorem tlvSize_exact (typ len : Nat) (h : len < 4611686018427387904) :
-    tlvSize typ len = ((tlLen typ + tlLen len + len : Nat) : Int) := by
-  have h1 := tlLen_le9 typ
-  have h2 := tlLen_le9 len
-  unfold tlvSize wrapI64 toI64
+/-- for lengths far below 2^63 the Go `int` arithmetic of `rdr.Pos() + int(len)` is exact -/
+theorem hdrSize_exact (hdr len : Nat) (hh : hdr ≤ 4611686018427387904) (h : len < 4611686018427387904) :
+    hdrSize hdr len = ((hdr + len : Nat) : Int) := by
+  unfold hdrSize wrapI64 toI64
   have hm : len % 18446744073709551616 = len := Nat.mod_eq_of_lt (by omega)
   rw [hm]
   have : len < 9223372036854775808 := by omega
@@ -46,6 +44,16 @@ theorem tlvSize_exact (typ len : Nat) (h : len < 4611686018427387904) :
   split
   · omega
   · omega
+
+/-- anatomy of a well-formed block: header bytes (T and L as sent) in front of the value -/
+theorem wf_anatomy {b : Bytes} (h : WellFormedTlv b) :
+    ∃ (typ : Nat) (hd1 hd2 v : Bytes), b = hd1 ++ (hd2 ++ v) ∧ decTL b = some (typ, hd2 ++ v) ∧
+      decTL (hd2 ++ v) = some (v.length, v) ∧ 1 ≤ hd1.length ∧ 1 ≤ hd2.length := by
+  obtain ⟨typ, len, r1, v, h1, h2, hv⟩ := h
+  obtain ⟨hd1, rfl, hl1⟩ := decTL_split h1
+  obtain ⟨hd2, rfl, hl2⟩ := decTL_split h2
+  subst hv
+  exact ⟨typ, hd1, hd2, v, rfl, h1, h2, by omega, by omega⟩
 
 theorem parseLoop_nil : parseLoop [] = ([], [], Status.more) := by
   rw [parseLoop]; simp [decTL]
@@ -60,45 +68,34 @@ theorem maxPkt_pos : 0 < maxPkt := by decide
 /-- a complete block at the front of the unread region is delivered and parsing continues -/
 theorem parseLoop_block (b u' : Bytes) (hb : Blk b) :
     parseLoop (b ++ u') = (b :: (parseLoop u').1, (parseLoop u').2.1, (parseLoop u').2.2) := by
-  obtain ⟨⟨typ, v, htyp, rfl⟩, hlen⟩ := hb
-  have hvlen : v.length ≤ maxPkt := by simp at hlen; omega
-  have hv64 : v.length < 2 ^ 64 := by have := maxPkt_small; omega
-  have hcap : ¬ v.length > cap := by have := maxPkt_lt_cap; omega
-  have e1 : decTL (encTL typ ++ (encTL v.length ++ (v ++ u'))) = some (typ, encTL v.length ++ (v ++ u')) :=
-    decTL_encTL typ htyp _
-  have e2 : decTL (encTL v.length ++ (v ++ u')) = some (v.length, v ++ u') :=
-    decTL_encTL v.length hv64 _
-  have hblen : (encTL typ ++ (encTL v.length ++ v)).length = tlLen typ + tlLen v.length + v.length := by
-    simp [encTL_length]; omega
-  simp only [List.append_assoc]
+  obtain ⟨hwf, hlen⟩ := hb
+  obtain ⟨typ, hd1, hd2, v, rfl, h1, h2, hl1, hl2⟩ := wf_anatomy hwf
+  have e1 := decTL_append h1 u'
+  have e2 := decTL_append h2 u'
+  rw [List.append_assoc] at e2
+  have hcap : ¬ v.length > cap := by have := maxPkt_lt_cap; simp at hlen; omega
   rw [parseLoop]
   split
   · rename_i h; rw [e1] at h; simp at h
-  · rename_i t' r1 h
+  · rename_i t' r1' h
     rw [e1] at h; simp at h; obtain ⟨rfl, rfl⟩ := h
     split
-    · rename_i h2; rw [e2] at h2; simp at h2
-    · rename_i l' r2 h2
-      rw [e2] at h2; simp at h2; obtain ⟨rfl, rfl⟩ := h2
+    · rename_i h'; rw [e2] at h'; simp at h'
+    · rename_i l' r2 h'
+      rw [e2] at h'; simp at h'; obtain ⟨rfl, rfl⟩ := h'
       simp only [hcap, if_false]
-      have hge : (encTL typ ++ (encTL v.length ++ (v ++ u'))).length ≥ tlLen typ + tlLen v.length + v.length := by
-        simp [encTL_length]; omega
-      simp only [hge, if_true]
-      have hre : encTL typ ++ (encTL v.length ++ (v ++ u')) = (encTL typ ++ (encTL v.length ++ v)) ++ u' := by
-        simp [List.append_assoc]
-      rw [hre, ← hblen]
-      generalize encTL typ ++ (encTL v.length ++ v) = B
+      have hsz : (hd1 ++ (hd2 ++ v) ++ u').length - (v ++ u').length + v.length = (hd1 ++ (hd2 ++ v)).length := by
+        simp; omega
+      rw [hsz]
+      generalize hd1 ++ (hd2 ++ v) = B
       simp
 
 /-- a proper prefix of a block: nothing is delivered, everything stays unread -/
 theorem parseLoop_partial (b u z : Bytes) (hb : Blk b) (hz : z ≠ []) (hu : u ++ z = b) :
     parseLoop u = ([], u, Status.more) := by
-  obtain ⟨⟨typ, v, htyp, hbeq⟩, hlen⟩ := hb
-  have hblen : b.length = tlLen typ + tlLen v.length + v.length := by
-    rw [hbeq]; simp [encTL_length]; omega
-  have hvlen : v.length ≤ maxPkt := by omega
-  have hv64 : v.length < 2 ^ 64 := by have := maxPkt_small; omega
-  have hcap : ¬ v.length > cap := by have := maxPkt_lt_cap; omega
+  obtain ⟨hwf, hlen⟩ := hb
+  obtain ⟨typ, hd1, hd2, v, hbeq, h1, h2, hl1, hl2⟩ := wf_anatomy hwf
+  have hcap : ¬ v.length > cap := by have := maxPkt_lt_cap; rw [hbeq] at hlen; simp at hlen; omega
   have hzl : 0 < z.length := List.length_pos_iff.mpr hz
   have hul : u.length + z.length = b.length := by rw [← hu]; simp
   rw [parseLoop]
@@ -106,18 +103,19 @@ theorem parseLoop_partial (b u z : Bytes) (hb : Blk b) (hz : z ≠ []) (hu : u +
   · rfl
   · rename_i t' r1 h
     have e1 := decTL_append h z
-    rw [hu, hbeq] at e1
-    have e1' := decTL_encTL typ htyp (encTL v.length ++ v)
-    rw [List.append_assoc] at e1
-    rw [e1'] at e1; simp at e1; obtain ⟨rfl, hr1⟩ := e1
+    rw [hu, h1] at e1
+    simp at e1; obtain ⟨rfl, hr1⟩ := e1
     split
     · rfl
-    · rename_i l' r2 h2
-      have e2 := decTL_append h2 z
-      rw [← hr1, decTL_encTL v.length hv64 v] at e2
-      simp at e2; obtain ⟨rfl, _⟩ := e2
+    · rename_i l' r2 h'
+      have e2 := decTL_append h' z
+      rw [← hr1, h2] at e2
+      simp at e2; obtain ⟨rfl, hv⟩ := e2
       simp only [hcap, if_false]
-      have hlt : ¬ (u.length ≥ tlLen typ + tlLen v.length + v.length) := by omega
+      have hvl : v.length = r2.length + z.length := by rw [hv]; simp
+      have hr2 : r2.length < u.length := by
+        have := decTL_rest_lt h; have := decTL_rest_lt h'; omega
+      have hlt : ¬ (u.length ≥ u.length - r2.length + v.length) := by omega
       simp only [hlt, if_false]
       have : ¬ (u.length > maxPkt) := by omega
       simp [this]
@@ -286,10 +284,8 @@ theorem blk_of_admissible {blocks : List Bytes} (h : Admissible blocks) : ∀ b 
   exact ⟨(h b hb).1, Nat.le_trans (h b hb).2 hle⟩
 
 theorem wf_length_pos {b : Bytes} (h : WellFormedTlv b) : 2 ≤ b.length := by
-  obtain ⟨typ, v, _, rfl⟩ := h
-  have := tlLen_pos typ
-  have := tlLen_pos v.length
-  simp [encTL_length]; omega
+  obtain ⟨typ, hd1, hd2, v, rfl, _, _, hl1, hl2⟩ := wf_anatomy h
+  simp; omega
 
 theorem inv_init (bs : List Bytes) (hwf : ∀ b ∈ bs, Blk b) : Inv init bs := by
   refine ⟨rfl, ?_, fun _ => rfl⟩
@@ -311,40 +307,47 @@ theorem toI64_small (len : Nat) (h : len < 4611686018427387904) : toI64 len = (l
 
 theorem appLoop_block (b u' : Bytes) (hb : Blk b) :
     appLoop (b ++ u') = (b :: (appLoop u').1, (appLoop u').2.1, (appLoop u').2.2) := by
-  obtain ⟨⟨typ, v, htyp, rfl⟩, hlen⟩ := hb
+  obtain ⟨hwf, hlen⟩ := hb
+  obtain ⟨typ, hd1, hd2, v, rfl, h1, h2, hl1, hl2⟩ := wf_anatomy hwf
   have hvlen : v.length < 4611686018427387904 := by
     have := maxPkt_small; simp at hlen; omega
-  have hv64 : v.length < 2 ^ 64 := by omega
-  have e1 : decTL (encTL typ ++ (encTL v.length ++ (v ++ u'))) = some (typ, encTL v.length ++ (v ++ u')) :=
-    decTL_encTL typ htyp _
-  have e2 : decTL (encTL v.length ++ (v ++ u')) = some (v.length, v ++ u') :=
-    decTL_encTL v.length hv64 _
-  have hsz := tlvSize_exact typ v.length hvlen
+  have hhd : hd1.length + hd2.length ≤ 4611686018427387904 := by
+    have := maxPkt_small; simp at hlen; omega
+  have e1 := decTL_append h1 u'
+  have e2 := decTL_append h2 u'
+  rw [List.append_assoc] at e2
   have hi := toI64_small v.length hvlen
-  simp only [List.append_assoc]
   rw [appLoop]
   split
   · rename_i h; rw [e1] at h; simp at h
-  · rename_i t' r1 h
+  · rename_i t' r1' h
     rw [e1] at h; simp at h; obtain ⟨rfl, rfl⟩ := h
     split
-    · rename_i h2; rw [e2] at h2; simp at h2
-    · rename_i l' r2 h2
-      rw [e2] at h2; simp at h2; obtain ⟨rfl, rfl⟩ := h2
-      have hno : ¬ (tlvSize typ v.length < 0 ∨ toI64 v.length < 0) := by
-        rw [hsz, hi]; omega
+    · rename_i h'; rw [e2] at h'; simp at h'
+    · rename_i l' r2 h'
+      rw [e2] at h'; simp at h'; obtain ⟨rfl, rfl⟩ := h'
+      have hpos : (hd1 ++ (hd2 ++ v) ++ u').length - (v ++ u').length = hd1.length + hd2.length := by
+        simp; omega
+      rw [hpos]
+      have hno : ¬ (hdrSize (hd1.length + hd2.length) v.length < 0 ∨ toI64 v.length < 0) := by
+        rw [hdrSize_exact _ _ hhd hvlen, hi]; omega
       simp only [hno, if_false]
       have hge : (v ++ u').length ≥ v.length := by simp
       simp only [hge, if_true]
+      have ht : List.take (hd1.length + hd2.length) (hd1 ++ (hd2 ++ v) ++ u') = hd1 ++ hd2 := by
+        have : hd1 ++ (hd2 ++ v) ++ u' = (hd1 ++ hd2) ++ (v ++ u') := by simp
+        rw [this, List.take_left' (by simp)]
+      rw [ht]
       simp
 
 theorem appLoop_partial (b u z : Bytes) (hb : Blk b) (hz : z ≠ []) (hu : u ++ z = b) :
     appLoop u = ([], u, Status.more) := by
-  obtain ⟨⟨typ, v, htyp, hbeq⟩, hlen⟩ := hb
+  obtain ⟨hwf, hlen⟩ := hb
+  obtain ⟨typ, hd1, hd2, v, hbeq, h1, h2, hl1, hl2⟩ := wf_anatomy hwf
   have hvlen : v.length < 4611686018427387904 := by
     have := maxPkt_small; rw [hbeq] at hlen; simp at hlen; omega
-  have hv64 : v.length < 2 ^ 64 := by omega
-  have hsz := tlvSize_exact typ v.length hvlen
+  have hul : u.length + z.length = b.length := by rw [← hu]; simp
+  have hulen : u.length ≤ 4611686018427387904 := by have := maxPkt_small; omega
   have hi := toI64_small v.length hvlen
   have hzl : 0 < z.length := List.length_pos_iff.mpr hz
   rw [appLoop]
@@ -352,18 +355,16 @@ theorem appLoop_partial (b u z : Bytes) (hb : Blk b) (hz : z ≠ []) (hu : u ++ 
   · rfl
   · rename_i t' r1 h
     have e1 := decTL_append h z
-    rw [hu, hbeq] at e1
-    have e1' := decTL_encTL typ htyp (encTL v.length ++ v)
-    rw [List.append_assoc] at e1
-    rw [e1'] at e1; simp at e1; obtain ⟨rfl, hr1⟩ := e1
+    rw [hu, h1] at e1
+    simp at e1; obtain ⟨rfl, hr1⟩ := e1
     split
     · rfl
-    · rename_i l' r2 h2
-      have e2 := decTL_append h2 z
-      rw [← hr1, decTL_encTL v.length hv64 v] at e2
+    · rename_i l' r2 h'
+      have e2 := decTL_append h' z
+      rw [← hr1, h2] at e2
       simp at e2; obtain ⟨rfl, hv⟩ := e2
-      have hno : ¬ (tlvSize typ v.length < 0 ∨ toI64 v.length < 0) := by
-        rw [hsz, hi]; omega
+      have hno : ¬ (hdrSize (u.length - r2.length) v.length < 0 ∨ toI64 v.length < 0) := by
+        rw [hdrSize_exact _ _ (by omega) hvlen, hi]; omega
       simp only [hno, if_false]
       have : ¬ (r2.length ≥ v.length) := by
         have : v.length = r2.length + z.length := by rw [hv]; simp
